@@ -74,21 +74,8 @@ func (w *SimWriter) Write(b []byte) (int, error) {
 		c.Implicit = true
 		w.commit(200)
 	}
-	n, err := len(b), error(nil)
-	for _, f := range w.faults {
-		if f.At != w.nWrites {
-			continue
-		}
-		if f.N >= 0 && f.N < len(b) {
-			n = f.N
-			err = io.ErrShortWrite
-			w.Fired = append(w.Fired, "short-write")
-		}
-		if f.Err != "" {
-			err = errInjected
-			w.Fired = append(w.Fired, "write-error")
-		}
-	}
+	n, err, fired := applyWFault(w.faults, w.nWrites, len(b))
+	w.Fired = append(w.Fired, fired...)
 	w.nWrites++
 	c.N = n
 	if err != nil {
@@ -107,4 +94,24 @@ func (w *SimWriter) Flush() {
 		w.commit(200)
 	}
 	w.Calls = append(w.Calls, c)
+}
+
+// applyWFault is the fault plan: what the k-th underlying Write of size bytes returns.
+func applyWFault(faults []WFault, k, size int) (n int, err error, fired []string) {
+	n = size
+	for _, f := range faults {
+		if f.At != k {
+			continue
+		}
+		if f.N >= 0 && f.N < size {
+			n = f.N
+			err = io.ErrShortWrite
+			fired = append(fired, "short-write")
+		}
+		if f.Err != "" {
+			err = errInjected
+			fired = append(fired, "write-error")
+		}
+	}
+	return
 }
